@@ -1,6 +1,7 @@
 package props
 
 import (
+	"fmt"
 	"go/token"
 	"go/types"
 	"sort"
@@ -533,6 +534,7 @@ func C03(p *engine.Prog, r *engine.Report) {
 
 	c03R2(p, r, ctx)
 	c03R3(p, r, vb)
+	c03R6(p, r, vb)
 }
 
 func c03R2(p *engine.Prog, r *engine.Report, ctx *c03ctx) {
@@ -865,4 +867,50 @@ func c03R3a(p *engine.Prog, r *engine.Report, rule string) {
 	}
 	r.Floor(rule, 4, "ValidateBlock/GenerateEmptyBlock/ValidateSubChain/ProposeBlock derive views")
 
+}
+
+// c03R6: insertBlock persists the body (content store, transaction index, mempool reset), so every
+// accepting path of validateBlock must pass a check whose condition depends on block.Body — the
+// transaction commitment on the proposed arm, emptiness on the empty arm.
+func c03R6(p *engine.Prog, r *engine.Report, vb *ssa.Function) {
+	block := candParam(vb)
+	if block == nil {
+		r.Und("C03-R6", "validateBlock|body constrained on every accepting path", p.Pos(vb.Pos()), "candidate parameter not found")
+		return
+	}
+	var bodyGuards []engine.Guard
+	for _, g := range checksOf(vb) {
+		sl := engine.BackSlice(g.If.Cond, engine.DefaultSlice)
+		for v := range sl {
+			if o, f, ok := engine.FieldOf(v); ok && o == "Block" && f == "Body" && rootOf(v) == block {
+				bodyGuards = append(bodyGuards, g)
+				break
+			}
+		}
+	}
+	// a nil body carries nothing: the nil edge of a test of block.Body constrains it as well
+	for _, g := range guardsWhere(vb, func(cond ssa.Value) (bool, bool, string) {
+		x, nonNilOnTrue, ok := engine.NilCheck(cond)
+		if !ok {
+			return false, false, ""
+		}
+		if o, f, okF := engine.FieldOf(engine.Origin(x)); okF && o == "Block" && f == "Body" && rootOf(x) == block {
+			return true, !nonNilOnTrue, "body == nil"
+		}
+		return false, false, ""
+	}) {
+		if len(bodyGuards) > 0 {
+			bodyGuards = append(bodyGuards, g)
+		}
+	}
+	ok := len(bodyGuards) > 0
+	var bad []string
+	for _, ret := range successReturns(vb) {
+		if !engine.OnlyThroughPass(vb, ret.Block(), bodyGuards) {
+			ok = false
+			bad = append(bad, p.InstrPos(ret))
+		}
+	}
+	r.Check(ok, "C03-R6", "validateBlock|body constrained on every accepting path", p.Pos(vb.Pos()), fmt.Sprintf("%d checks on block.Body; every success return behind one", len(bodyGuards)), "a block is accepted at "+strings.Join(bad, ", ")+" on a path that never looks at its body: insertBlock then stores and indexes whatever transactions it carries (an empty header with a foreign body passes the hash comparison)")
+	r.Floor("C03-R6", 1, "validateBlock")
 }
